@@ -1,3 +1,4 @@
 pub mod grammar;
+pub mod prog;
 pub mod tirgen;
 pub mod tokens;
